@@ -242,7 +242,7 @@ def conform(run_lines, scenario, variant, sitemap, timeout=600):
         path, n, unknown = build(run_lines, scenario, variant, sitemap, d)
     except ValueError as e:
         return None, str(e)
-    r = lib.run_tlc("Trace_CLHT", workers=1, env={"TRACE": path}, timeout=timeout, dfs=True, workdir=d, staged=True, heap="4g")
+    r = lib.run_tlc("Trace_CLHT", workers=1, env={"TRACE": path}, timeout=timeout, dfs=True, workdir=d, staged=True, heap="2g")
     m = re.findall(r'<<"HWM", (\d+), (\d+)>>', r["out"])
     if not m:
         return False, "no HWM: " + r["out"][-1500:]
